@@ -518,14 +518,14 @@ package common
 // (each implementation is verified against it: <fork>.BeaconStateView.ProcessEpoch / ProcessBlock, UpgradeMaybe)
 //@ func (s BeaconState) ProcessEpoch(ctx, spec, epc) err
 //@   trusted
-//@   assigns anything, ghost(ctx_t), ghost(ctx_seen), ghost(n_set_prevjust), ghost(set_prevjust), ghost(n_set_curjust), ghost(set_curjust), ghost(n_set_fin), ghost(set_fin), ghost(n_set_jbits), ghost(set_jbits)
+//@   assigns anything, ghost(ctx_t), ghost(ctx_seen), ghost(n_set_prevjust), ghost(set_prevjust), ghost(n_set_curjust), ghost(set_curjust), ghost(n_set_fin), ghost(set_fin), ghost(n_set_jbits), ghost(set_jbits), ghost(n_eth1_reset), ghost(n_slash_reset), ghost(last_slash_reset), ghost(n_set_mix), ghost(last_set_mix_epoch), ghost(last_set_mix), ghost(n_hist_update)
 //@   ensures cancelled: ctx_cancelled(ctx, old(ctx_t)) ==> err != nil
 //@   ensures surfaced: !old(ctx_seen) && ctx_seen ==> err != nil
 //@   ensures polled: err == nil && ctx_t > old(ctx_t) ==> !ctx_cancelled(ctx, old(ctx_t))
 //@   ensures time: ctx_t >= old(ctx_t)
 //@ func (s BeaconState) ProcessBlock(ctx, spec, epc, benv) err
 //@   trusted
-//@   assigns anything, ghost(ctx_t), ghost(ctx_seen), ghost(n_eng_notify), ghost(n_set_exec_header)
+//@   assigns anything, ghost(ctx_t), ghost(ctx_seen), ghost(n_eng_notify), ghost(n_set_exec_header), ghost(n_set_mix), ghost(last_set_mix_epoch), ghost(last_set_mix)
 //@   ensures cancelled: ctx_cancelled(ctx, old(ctx_t)) ==> err != nil
 //@   ensures surfaced: !old(ctx_seen) && ctx_seen ==> err != nil
 //@   ensures polled: err == nil && ctx_t > old(ctx_t) ==> !ctx_cancelled(ctx, old(ctx_t))
@@ -914,6 +914,52 @@ package common
 //@   requires spec != nil && spec.SLOTS_PER_EPOCH != 0 && state != nil
 //@   ensures err == nil ==> epoch * spec.SLOTS_PER_EPOCH < 18446744073709551616 && !st_broots_err(state) && r == roots_at(st_broots(state), epoch * spec.SLOTS_PER_EPOCH)
 
+// end-of-epoch resets (C02): the state's sub-views as interface models with ghost records of the resetting calls
+//@ ghost n_eth1_reset int
+//@ ghost n_slash_reset int
+//@ ghost last_slash_reset int
+//@ ghost n_set_mix int
+//@ ghost last_set_mix_epoch int
+//@ ghost last_set_mix Root32
+//@ ghost n_hist_update int
+//@ func (s BeaconState) Eth1DataVotes() (r, err)
+//@   trusted
+//@   opt noalloc
+//@   ensures err == nil ==> r != nil
+//@ func (v Eth1DataVotes) Reset() err
+//@   trusted
+//@   assigns ghost(n_eth1_reset)
+//@   ensures n_eth1_reset == old(n_eth1_reset) + 1
+//@ func (s BeaconState) Slashings() (r, err)
+//@   trusted
+//@   opt noalloc
+//@   ensures err == nil ==> r != nil
+//@ func (v Slashings) ResetSlashings(epoch) err
+//@   trusted
+//@   assigns ghost(n_slash_reset), ghost(last_slash_reset)
+//@   ensures n_slash_reset == old(n_slash_reset) + 1 && last_slash_reset == epoch
+//@ func (m RandaoMixes) SetRandomMix(epoch, mix) err
+//@   trusted
+//@   assigns ghost(n_set_mix), ghost(last_set_mix_epoch), ghost(last_set_mix)
+//@   ensures n_set_mix == old(n_set_mix) + 1 && last_set_mix_epoch == epoch && last_set_mix == mix
+//@ func UpdateHistoricalRoots(state) err
+//@   trusted
+//@   assigns ghost(n_hist_update)
+//@   ensures n_hist_update == old(n_hist_update) + 1
+
+// process_randao_mixes_reset: mix(next_epoch) := mix(current_epoch)
+//@ func PrepareRandao(mixes, epoch) err
+//@   property C02
+//@   requires mixes != nil
+//@   assigns ghost(n_set_mix), ghost(last_set_mix_epoch), ghost(last_set_mix)
+//@   ensures err == nil ==> n_set_mix == old(n_set_mix) + 1 && last_set_mix_epoch == epoch && last_set_mix == mix_at(mixes, ite(epoch == 0, 0, epoch - 1)) && !mix_err(mixes, ite(epoch == 0, 0, epoch - 1))
+
+//@ ufun epoch_root(int) RootT
+//@ func (e Epoch) HashTreeRoot(hFn) r
+//@   trusted
+//@   opt noalloc
+//@   ensures r == epoch_root(e)
+
 // BEGIN C18 generated (tools/gen_c18.py in /verif)
 // cancelled: a context cancelled before the call makes it fail; surfaced: a cancellation observed by a poll
 // during the call makes it fail; polled: success after a poll means the context was not cancelled at entry.
@@ -970,6 +1016,7 @@ package common
 //@   loop 1
 //@     invariant ctx_t == old(ctx_t) ==> currentSlot < slot
 //@   ensures c03_forward: err == nil ==> !st_slot_err(state) && st_slot(state) < slot
+//@   assigns ghost(n_eth1_reset), ghost(n_slash_reset), ghost(last_slash_reset), ghost(n_set_mix), ghost(last_set_mix_epoch), ghost(last_set_mix), ghost(n_hist_update)
 //@   assigns ghost(n_set_prevjust), ghost(set_prevjust), ghost(n_set_curjust), ghost(set_curjust), ghost(n_set_fin), ghost(set_fin), ghost(n_set_jbits), ghost(set_jbits)
 
 //@ func StateTransition(ctx, spec, epc, state, benv, validateResult) err
@@ -987,6 +1034,8 @@ package common
 //@     invariant ctx_t >= old(ctx_t) && (old(ctx_seen) || !ctx_seen)
 //@     invariant ctx_t > old(ctx_t) ==> !ctx_cancelled(ctx, old(ctx_t))
 //@   assigns ghost(n_eng_notify), ghost(n_set_exec_header)
+//@   assigns ghost(n_eth1_reset), ghost(n_slash_reset), ghost(last_slash_reset), ghost(n_set_mix), ghost(last_set_mix_epoch), ghost(last_set_mix), ghost(n_hist_update)
+//@   assigns ghost(n_set_mix), ghost(last_set_mix_epoch), ghost(last_set_mix)
 //@   assigns ghost(n_set_prevjust), ghost(set_prevjust), ghost(n_set_curjust), ghost(set_curjust), ghost(n_set_fin), ghost(set_fin), ghost(n_set_jbits), ghost(set_jbits)
 
 //@ func PostSlotTransition(ctx, spec, epc, state, benv, validateResult) err
@@ -1007,5 +1056,6 @@ package common
 //@   ensures c03_slot: err == nil ==> !st_slot_err(state) && st_slot(state) == old(benv.Slot)
 //@   ensures c03_reads: validateResult && err == nil ==> !st_forkdata_err(state) && !st_gvr_err(state) && !epc_proposer_err(epc, old(benv.Slot))
 //@   ensures c03_signature: old(benv != nil && epc != nil && epc.ValidatorPubkeyCache != nil && (forall r PcPtr :: {pctrig(r)} pctrig(r) && alloc(r) ==> pc_local(r.pub2idx, r.idx2pub, r.trustedParentCount) && pc_chain(r.parent, r, r.trustedParentCount, r.parent.trustedParentCount, len(r.parent.idx2pub))) && (forall r PcPtr :: {held(r.rwLock)} held(r.rwLock) == 0)) && validateResult && err == nil ==> (exists pk Pub48T :: block_sig_ok(old(benv.ProposerIndex), epc_proposer(epc, old(benv.Slot)), old(benv.ForkDigest), old(benv.BlockRoot), old(benv.Signature), pk, DOMAIN_BEACON_PROPOSER, st_forkdata(state).CurrentVersion, st_gvr(state)))
+//@   assigns ghost(n_set_mix), ghost(last_set_mix_epoch), ghost(last_set_mix)
 
 // END C18 generated
